@@ -121,7 +121,7 @@ def gen_exc_names(rng):
     return ["c%d" % rng.choice(USER + [4]) for _ in range(rng.range(2, 3))]
 
 
-def gen_cfg(rng):
+def gen_cfg(rng, nested_calls=False):
     level = rng.choice(LEVELS[:3]) if rng.chance(70) else rng.choice(LEVELS)
     exclude = None
     if rng.chance(30):
@@ -130,6 +130,13 @@ def gen_cfg(rng):
     onerr = "n"
     if rng.chance(55):
         onerr = "k" if rng.chance(80) else [rng.choice(USER), 300 + rng.below(5)]
+        if nested_calls and rng.chance(30):
+            # the callback itself runs catch()-protected code (decorated function / with block)
+            calls = []
+            for i in range(rng.range(1, 2)):
+                out = ["r", rng.below(10)] if rng.chance(20) else ["e", rng.choice(USER), 700 + 10 * rng.below(5) + i]
+                calls.append({"form": rng.choice(["f", "w"]), "cfg": gen_cfg(rng), "out": out})
+            onerr = {"calls": calls, "raise": [rng.choice(USER), 310 + rng.below(5)] if rng.chance(15) else None}
     return {"exc": gen_exc_names(rng), "excl": exclude, "reraise": rng.chance(35), "level": list(level),
             "default": rng.choice([0, 0, 1, 2, 7, 9]), "onerror": onerr}
 
@@ -210,22 +217,38 @@ def gen_env(rng):
     logbits = "0" * NC
     if rng.chance(12):
         logbits = "".join("1" if rng.chance(50) else "0" for _ in range(NC))
-    return {"probes": probes, "logbits": logbits, "logexc": [rng.choice(USER), 400]}
+    m = rng.below(100)
+    sink = "normal" if m < 80 else ("none" if m < 92 else "high")   # none: no handler at all; high: above every level
+    return {"probes": probes, "logbits": logbits, "logexc": [rng.choice(USER), 400], "sink": sink}
 
 
 def gen_scenario(rng):
     kind = rng.choice(["fn", "with", "awith", "gen", "gen", "gen", "coro", "coro", "agen", "agen", "agen"])
     depth = 1 if rng.chance(75) else rng.range(2, 3)
-    return {"kind": kind, "cfgs": [gen_cfg(rng) for _ in range(depth)], "env": gen_env(rng),
+    return {"kind": kind, "cfgs": [gen_cfg(rng, True) for _ in range(depth)], "env": gen_env(rng),
             "table": gen_table(rng, kind), "ops": gen_ops(rng, kind)}
 
 
 # ----------------------------------------------------------------------------- wire format
-def cfg_token(c):
+MINLEVEL = {"normal": 0, "high": 100, "none": 1000000}
+
+
+def env_minlevel(env):
+    return MINLEVEL[env.get("sink", "normal")]
+
+
+def cfg_token(c, sep=":"):
     o = c["onerror"]
-    ot = o if isinstance(o, str) else "r%d.%d" % (o[0], o[1])
-    return "%s:%s:%d:%d:%d:%s" % (bits_of(c["exc"]), bits_of(c["excl"]), 1 if c["reraise"] else 0,
-                                  c["level"][1], c["default"], ot)
+    if isinstance(o, str):
+        ot = o
+    elif isinstance(o, dict):
+        ot = "q" + "!".join("%s=%s=%s" % (k["form"], cfg_token(k["cfg"], "^"), act_token(k["out"])) for k in o["calls"])
+        if o["raise"]:
+            ot += "$%d.%d" % tuple(o["raise"])
+    else:
+        ot = "r%d.%d" % (o[0], o[1])
+    return sep.join([bits_of(c["exc"]), bits_of(c["excl"]), "1" if c["reraise"] else "0",
+                     "%d" % c["level"][1], "%d" % c["default"], ot])
 
 
 def act_token(a):
@@ -245,7 +268,7 @@ def line_of(sc):
     kind = sc["kind"]
     env = sc["env"]
     probes = ",".join("%s~%s" % (cfg_token(p["cfg"]), act_token(p["out"])) for p in env["probes"]) or "-"
-    envt = "%s@%s:%d.%d" % (probes, env["logbits"], env["logexc"][0], env["logexc"][1])
+    envt = "%s@%s:%d.%d@%d" % (probes, env["logbits"], env["logexc"][0], env["logexc"][1], env_minlevel(env))
     table = "/".join(",".join(act_token(a) for a in row) for row in sc["table"])
     ops = ",".join("c" if o[0] == "c" else ("s%d" % o[1] if o[0] == "s" else "t%d.%d" % (o[1], o[2]))
                    for o in sc["ops"]) or "-"
@@ -426,9 +449,9 @@ def make_body(sc, run):
 
 # depth (as added by `Catcher.__exit__` to the logger's depth option) at which a frame sits, seen from
 # the caller of `__exit__`; under `async with` the caller of `__exit__` is `__aexit__`
-DEPTH_NAMES = {"catch_wrapper": 0, "asend": 0, "_with_block": 0, "_outcome": 1, "_call_depth1": 1,
-               "_drv_depth1": 2, "_call_depth2": 2}
-DEPTH_NAMES_AWITH = {"__aexit__": 0, "_with_block": 1, "_outcome": 2, "_drv_depth1": 3}
+DEPTH_NAMES = {"catch_wrapper": 0, "asend": 0, "_with_block": 0, "_nested_with": 0, "_outcome": 1, "_call_depth1": 1,
+               "onerror_cb": 1, "_drv_depth1": 2, "_call_depth2": 2}
+DEPTH_NAMES_AWITH = dict(DEPTH_NAMES, **{"__aexit__": 0, "_with_block": 1, "_outcome": 2, "_drv_depth1": 3})
 
 
 def new_logger(run):
@@ -465,7 +488,10 @@ def new_logger(run):
         if c[0] < NC and env["logbits"][c[0]] == "1":
             raise run.obj(*env["logexc"])
 
-    lg.add(sink, level=0, format="{message}", catch=False, backtrace=False, diagnose=False, colorize=False)
+    which = env.get("sink", "normal")
+    if which != "none":     # "none": the logger has no handler at all
+        lg.add(sink, level=0 if which == "normal" else 100, format="{message}", catch=False, backtrace=False,
+               diagnose=False, colorize=False)
     for p in env["probes"]:
         def raw(out=p["out"]):
             if out[0] == "e":
@@ -479,6 +505,38 @@ def catcher_of(lg, c, run):
     o = c["onerror"]
     if o == "n":
         onerror = None
+    elif isinstance(o, dict):
+        nested = []
+        for k in o["calls"]:
+            def raw(out=k["out"]):
+                if out[0] == "e":
+                    raise run.obj(out[1], out[2])
+                return pyval(out[1])
+            if k["form"] == "f":
+                nested.append(catcher_of(lg, k["cfg"], run)(raw))
+            else:
+                def _nested_with(raw=raw, catcher=catcher_of(lg, k["cfg"], run)):
+                    with catcher:
+                        return raw()
+                    return None
+                nested.append(_nested_with)
+
+        def onerror_cb(e):
+            """user callback that itself relies on catch(): every call is reported; an exception a
+            call lets through escapes the callback"""
+            if not run.live:
+                return
+            run.trace.append(("O",) + run.canon(e))
+            for call in nested:
+                try:
+                    v = call()
+                except BaseException as x:  # noqa
+                    run.trace.append(("P", ("e",) + run.canon(x)))
+                    raise
+                run.trace.append(("P", ("r", canval(v))))
+            if o["raise"]:
+                raise run.obj(o["raise"][0], o["raise"][1])
+        onerror = onerror_cb
     else:
         def onerror(e, o=o):
             if not run.live:
@@ -644,11 +702,18 @@ def execute(sc, wrapped):
 
             def raiser():
                 raise probe_exc
-            cres = _call_depth1(run, lg.catch(message="M40")(raiser))
+            seen = []
+            cres = _call_depth1(run, lg.catch(message="M40", onerror=seen.append)(raiser))
             logs = [ev for ev in run.trace[n0:] if ev[0] == "L"]
-            canary = (cres[0] == "r" and len(logs) == 1) or (
-                # the sink of this scenario may legitimately make _log raise for class 11
-                sc["env"]["logbits"][11] == "1" and len(logs) == 1)
+            if sc["env"].get("sink", "normal") != "normal":
+                # no handler accepts the record: the onerror call is what shows the catcher worked
+                canary = cres[0] == "r" and not logs and seen == [probe_exc]
+            else:
+                canary = (cres[0] == "r" and len(logs) == 1 and seen == [probe_exc]) or (
+                    # the sink of this scenario may legitimately make _log raise for class 11
+                    sc["env"]["logbits"][11] == "1" and len(logs) == 1 and not seen)
+            if not canary:
+                canary = ("canary", "result %s, %d record(s), %d onerror call(s)" % (res_token(cres), len(logs), len(seen)))
             del run.trace[n0:]
     finally:
         run.live = False
@@ -662,6 +727,48 @@ def execute(sc, wrapped):
 
 
 # ----------------------------------------------------------------------------- the property, executable
+def spec_catch(env, c, cur, depth):
+    """ONE catcher meets the exception `cur` raised by the code it protects (guard flag clear).
+    Returns (status, exception, events): 'pass' = not its business, propagates untouched;
+    'suppressed'; 'reraise' = handled and re-raised; 'raise' = replaced by an error of `_log`/onerror."""
+    m, x = bits_of(c["exc"]), bits_of(c["excl"])
+    if cur[0] >= NC or m[cur[0]] != "1" or x[cur[0]] == "1":
+        return "pass", cur, []
+    events = []
+    if c["level"][1] >= env_minlevel(env):
+        # some handler accepts the level: exactly one record ...
+        events.append(("L", c["level"][1], cur[0], cur[1], depth))
+        for p in env["probes"]:
+            # ... a catch()-wrapped callable invoked while it is produced must see its own exception
+            # propagate (no recursive catching) and must not produce records
+            out = p["out"]
+            events.append(("P", ("e", out[1], out[2]) if out[0] == "e" else ("r", out[1])))
+        if env["logbits"][cur[0]] == "1":
+            return "raise", tuple(env["logexc"]), events
+    o = c["onerror"]
+    if o != "n":
+        # then onerror, exactly once - with or without a handler
+        events.append(("O", cur[0], cur[1]))
+        if isinstance(o, dict):
+            # the callback calls catch()-protected code: each such call obeys the property itself
+            for k in o["calls"]:
+                out = k["out"]
+                if out[0] == "r":
+                    res = ("r", out[1])
+                else:
+                    st, exc2, ev2 = spec_catch(env, k["cfg"], tuple(out[1:]), 1 if k["form"] == "f" else 0)
+                    events += ev2
+                    res = ("r", k["cfg"]["default"] if k["form"] == "f" else 0) if st == "suppressed" else ("e",) + exc2
+                events.append(("P", res))
+                if res[0] == "e":
+                    return "raise", res[1:], events
+            if o["raise"]:
+                return "raise", tuple(o["raise"]), events
+        elif o != "k":
+            return "raise", tuple(o), events
+    return ("reraise" if c["reraise"] else "suppressed"), cur, events
+
+
 def spec_escape(sc, e, depth):
     """An exception `e` = (cls, id) raised by the wrapped code itself escapes it (guard flag clear).
     Returns (('ret', default) | ('raise', exc), expected events) for the stack of catchers."""
@@ -669,28 +776,14 @@ def spec_escape(sc, e, depth):
     cfgs = sc["cfgs"][:1] if sc["kind"] == "agen" else sc["cfgs"]
     events = []
     cur = tuple(e)
+    handled = False
     for c in cfgs:
-        m, x = bits_of(c["exc"]), bits_of(c["excl"])
-        if cur[0] >= NC or m[cur[0]] != "1" or x[cur[0]] == "1":
-            continue
-        events.append(("L", c["level"][1], cur[0], cur[1], depth))
-        for p in env["probes"]:
-            # a catch()-wrapped callable invoked while the record is produced must see its own
-            # exception propagate (no recursive catching) and must not produce records
-            out = p["out"]
-            events.append(("P", ("e", out[1], out[2]) if out[0] == "e" else ("r", out[1])))
-        if env["logbits"][cur[0]] == "1":
-            cur = tuple(env["logexc"])
-            continue
-        if c["onerror"] != "n":
-            events.append(("O", cur[0], cur[1]))
-            if c["onerror"] != "k":
-                cur = tuple(c["onerror"])
-                continue
-        if c["reraise"]:
-            continue
-        return ("ret", c["default"]), events
-    return ("raise", cur), events
+        st, cur, ev = spec_catch(env, c, cur, depth)
+        events += ev
+        handled = handled or st != "pass"
+        if st == "suppressed":
+            return ("ret", c["default"]), events, True
+    return ("raise", cur), events, handled
 
 
 # the record must identify: the frame that called / resumed the decorated callable (depth 1 from the
@@ -711,15 +804,16 @@ def suppressed_result(kind, default, op):
     return ("a",)
 
 
-def finding_key(kind, op, acts, rw, ru, step_events, spec_events):
+def finding_key(kind, op, acts, rw, ru, step_events, spec_handled):
     """classify a deviation as one of the recorded findings (by its shape), else None"""
     if kind in ("gen", "coro"):
         if op[0] == "t" and op[1] == 0:
             return K_GENEXIT     # `yield from`/`await` answer throw(GeneratorExit) with close() of the delegate
-        if op[0] == "c" and any(t.startswith("L") and t.split(".")[1:3] == ["0", "50"] for t in step_events):
+        if op[0] == "c" and any((t.startswith("L") and t.split(".")[1:3] == ["0", "50"]) or t == "O0.50"
+                                for t in step_events):
             return K_CLOSE_GE    # close(): GeneratorExit re-raised inside `with catcher`, configuration matches it
     if kind == "agen":
-        if op[0] in ("t", "c") and spec_events and rw == ru and not step_events:
+        if op[0] in ("t", "c") and spec_handled and rw == ru and not step_events:
             return K_F9
     return None
 
@@ -735,9 +829,11 @@ def judge(sc, W, U):
     def toks(evs):
         return [ev_token(ev, strip) if ev[0] in ("L", "O", "P") else repr(ev) for ev in evs]
 
-    if canary is False:
-        problems.append(("after the scenario a fresh catch() on the same logger did not log exactly once "
-                         "(guard flag left set?)", None))
+    if isinstance(canary, tuple):
+        problems.append(("after the scenario, a fresh catch(onerror=cb)-decorated function raising on the same logger "
+                         "gave %s; expected its default, %s record and exactly one onerror call (guard flag left "
+                         "set / onerror skipped?)" % (canary[1], "one" if sc["env"].get("sink", "normal") == "normal" else "no"),
+                         None))
     cfgs = sc["cfgs"][:1] if kind == "agen" else sc["cfgs"]
     for i in range(len(ru)):
         body_raised = [a for a in au[i] if a == "e" or (isinstance(a, tuple) and a[0] == "x")]
@@ -755,11 +851,11 @@ def judge(sc, W, U):
         # first escaping step
         if own and ru[i][0] == "e":
             e = ru[i][1:]
-            (what, val), events = spec_escape(sc, e, SPEC_DEPTH[kind])
+            (what, val), events, handled = spec_escape(sc, e, SPEC_DEPTH[kind])
             exp_res = suppressed_result(kind, val, op) if what == "ret" else ("e",) + tuple(val)
             exp_tok = toks(events)
             if rw[i] != exp_res or step_events != exp_tok:
-                key = finding_key(kind, op, au[i], rw[i], ru[i], step_events, events)
+                key = finding_key(kind, op, au[i], rw[i], ru[i], step_events, handled)
                 problems.append(("step %d (%s): the wrapped code raised %s itself; expected result %s with events %s, "
                                  "observed %s with events %s" % (i, op, res_token(ru[i]), res_token(exp_res), exp_tok,
                                                                  res_token(rw[i]), step_events), key))
@@ -782,7 +878,7 @@ def cfg_default(**kw):
     return c
 
 
-ENV0 = {"probes": [], "logbits": "0" * NC, "logexc": [11, 400]}
+ENV0 = {"probes": [], "logbits": "0" * NC, "logexc": [11, 400], "sink": "normal"}
 
 
 def row(send, **throws):
